@@ -253,7 +253,9 @@ def case_coq(h, later):
     ordt = ["(%d, %d)" % (it.str(m), phantom) for m in h["msts"] if m in later]
     return "(mkT %s [%d] %s, %s)" % (coq_list(am), P_OR, coq_list(ordt), coq_list(ops)), len(ops)
 
-TOFF = 4000000          # time offsets of the histories are >= -3000000 s
+INDEX_SPAN = 604800     # = index_span of coq/C13/Tree.v (checked against the file and against the server's index directories)
+TOFF = 3190400          # offsets are >= -3000000 s; (1700000000 + t) and (t + TOFF) fall into the same week when weeks start where the
+                        # server's index groups start (checked on every run against the index directories of the server)
 
 
 def tree_case(h):
@@ -587,9 +589,25 @@ def main(ck):
     rc, out = bb["res"]
     hs = [json.loads(l) for l in out.splitlines() if l.startswith('{"i"')]
     comp = None
+    ranges = None
     for l in out.splitlines():
         if l.startswith('{"compaction"'):
             comp = json.loads(l)["compaction"]
+        if l.startswith('{"base_sec"') or l.startswith('{"index_ranges"'):
+            ranges = json.loads(l)
+    # the tree model's index groups (grp t = t / index_span on times shifted by TOFF) must be the server's index time ranges
+    mspan = re.search(r"Definition index_span : N := (\d+)\.", open(os.path.join(vlib.COQ, "C13", "Tree.v")).read())
+    if not mspan or int(mspan.group(1)) != INDEX_SPAN:
+        ck.broken.append("C13: index_span of coq/C13/Tree.v is not the driver's INDEX_SPAN")
+    if rc == 0 and not getattr(ck, "replay", None):
+        if not ranges or not ranges.get("index_ranges"):
+            ck.broken.append("C13 black box: no series index directory was found (the index groups of the tree model are not tied)")
+        else:
+            badr = [r for r in ranges["index_ranges"] if r[1] - r[0] != INDEX_SPAN or (r[0] - ranges["base_sec"] + TOFF) % INDEX_SPAN != 0]
+            ck.cov["index_time_ranges_seen"] = len({tuple(r) for r in ranges["index_ranges"]})
+            if badr:
+                ck.broken.append("C13: the server's series indexes do not cover the time ranges the tree model assumes "
+                                 "(span %d s, aligned with TOFF): %s" % (INDEX_SPAN, badr[:3]))
     if rc != 0 or len(hs) < n:
         ck.broken.append("harness c13 failed rc=%d histories=%d: %s" % (rc, len(hs), out[-800:]))
         return
